@@ -27,9 +27,10 @@ import (
 // Threads run under the scheduler, so a panic in a connection goroutine is caught and attributed.
 
 type c28Input struct {
-	Prelude byte // 0 none, 4, 5
+	Prelude byte // 0 none, 4, 5, 6 (v5 with a huge client Maximum Packet Size)
 	Bytes   []byte
 	Desc    string
+	RefID   bool // the stream is a CONNECT with the reference client's identifier
 }
 
 var c28RLs = [][]byte{{0x00}, {0x01}, {0x02}, {0x03}, {0x3f}, {0x40}, {0x7f}, {0x80, 0x01}, {0xff, 0xff, 0xff, 0x7f}, {0x80, 0x80, 0x80, 0x80, 0x01}}
@@ -79,6 +80,9 @@ func c28DomainI() []c28Input {
 				in := append(append([]byte{byte(h)}, rl...), b...)
 				for _, pre := range []byte{0, 4, 5} {
 					out = append(out, c28Input{Prelude: pre, Bytes: in, Desc: fmt.Sprintf("hdr=%02x rl=%x body=%d", h, rl, len(b))})
+				}
+				if n > 64 && len(b) > 0 && b[0] == 0 {
+					out = append(out, c28Input{Prelude: 6, Bytes: in, Desc: fmt.Sprintf("hdr=%02x rl=%x body=%d after CONNECT with client max packet size 2^24", h, rl, len(b))})
 				}
 			}
 		}
@@ -144,6 +148,35 @@ func c28DomainII(deep bool) []c28Input {
 	return out
 }
 
+// c28DomainIII: first packets that are CONNECTs carrying the identifier of the connected
+// reference client "r": all 256 flag bytes x protocol versions 3..6 x payload sections
+// consistent with the flags / cut short. A refused CONNECT must not disturb r.
+func c28DomainIII() []c28Input {
+	var out []c28Input
+	for ver := byte(3); ver <= 6; ver++ {
+		for fl := 0; fl < 256; fl++ {
+			f := byte(fl)
+			p := world.ConnectPacket("r", ver, f&2 != 0)
+			p.WillFlag = f&4 != 0
+			p.WillTopic, p.WillPayload = "w", []byte("wp")
+			p.UserFlag, p.PassFlag = f&0x80 != 0, f&0x40 != 0
+			p.Username, p.Password = []byte("u"), []byte("p")
+			enc := ver
+			if enc > 5 {
+				enc = 5
+			}
+			full := ref.Encode(p, enc, ref.EncOpts{RawConnectFlags: &f})
+			out = append(out, c28Input{Prelude: 0, Bytes: full, Desc: fmt.Sprintf("CONNECT id=r v%d flags=%02x", ver, f), RefID: true})
+			if len(full) > 16 && fl%8 == 0 {
+				cut := append([]byte{}, full[:len(full)-2]...)
+				cut[1] = byte(len(cut) - 2)
+				out = append(out, c28Input{Prelude: 0, Bytes: cut, Desc: fmt.Sprintf("CONNECT id=r v%d flags=%02x cut", ver, f), RefID: true})
+			}
+		}
+	}
+	return out
+}
+
 func c28RunOne(in c28Input) (viol []explore.Violation, closed bool) {
 	w := world.New(nil, world.Config{Caps: func(c *mqtt.Capabilities) { c.MaximumPacketSize = 64 }})
 	defer w.End()
@@ -156,7 +189,12 @@ func c28RunOne(in c28Input) (viol []explore.Violation, closed bool) {
 	r.Poll()
 	nBefore := len(r.Recv)
 	c := w.Open()
-	if in.Prelude != 0 {
+	if in.Prelude == 6 {
+		// v5 CONNECT announcing a huge client-side Maximum Packet Size: it limits what the
+		// broker may SEND, never what the broker accepts
+		c.Send(ref.Encode(world.ConnectPacket("att", 5, true, ref.Prop{ID: ref.PMaximumPacketSize, Num: 1 << 24}), 5, ref.EncOpts{}))
+		w.Run()
+	} else if in.Prelude != 0 {
 		c.Send(ref.Encode(world.ConnectPacket("att", in.Prelude, true), in.Prelude, ref.EncOpts{}))
 		w.Run()
 	}
@@ -176,12 +214,24 @@ func c28RunOne(in c28Input) (viol []explore.Violation, closed bool) {
 	if len(in.Bytes) >= 2 {
 		rl, n, ok := c28ParseRL(in.Bytes[1:])
 		_ = n
-		if ok && rl+1 > 64 && (in.Prelude != 0) {
+		if ok && rl+1 > 64 && (in.Prelude != 0) && !in.RefID {
 			if !c.Closed {
 				add("oversize:not-refused", "declared packet of %d bytes exceeds MaximumPacketSize 64 but the connection stays open", rl+1)
 			}
 			if countEvents(w, "OnPacketProcessed") != reads0 {
 				add("oversize:processed", "oversize packet reached the packet handler")
+			}
+		}
+	}
+	if in.RefID {
+		// a CONNECT with r's identifier that the broker ACCEPTS is a legitimate takeover of r;
+		// only a refused one must leave r alone
+		for _, dv := range []byte{4, 5} {
+			pks, _, _, _ := ref.DecodeStream(c.Out, dv)
+			for _, pk := range pks {
+				if pk.Type == ref.CONNACK && pk.ReasonCode == 0 {
+					return viol, c.Closed
+				}
 			}
 		}
 	}
@@ -239,7 +289,9 @@ func countEvents(w *world.World, name string) int {
 
 func c28Set(arg string) explore.CaseSet {
 	var dom []c28Input
-	if strings.Contains(arg, "ii") {
+	if strings.Contains(arg, "iii") {
+		dom = c28DomainIII()
+	} else if strings.Contains(arg, "ii") {
 		dom = c28DomainII(strings.Contains(arg, "deep"))
 	} else {
 		dom = c28DomainI()
@@ -265,11 +317,13 @@ func init() {
 	explore.Register("C28", func(c *explore.Ctx) {
 		c.Rep.Level = "exploration"
 		if c.Quick() {
-			explore.RunCases(c, "c28", "i", 35*time.Second)
-			explore.RunCases(c, "c28", "ii", 35*time.Second)
+			explore.RunCases(c, "c28", "i", 30*time.Second)
+			explore.RunCases(c, "c28", "ii", 30*time.Second)
+			explore.RunCases(c, "c28", "iii", 15*time.Second)
 		} else {
 			explore.RunCases(c, "c28", "i", 4*time.Minute)
-			explore.RunCases(c, "c28", "ii,deep", 7*time.Minute)
+			explore.RunCases(c, "c28", "ii,deep", 6*time.Minute)
+			explore.RunCases(c, "c28", "iii", 1*time.Minute)
 		}
 		c.Rep.Set("rule", "each case = one byte stream sent by an attacker connection (after no/v4/v5 CONNECT) to a live broker with a reference client; evaluations = broker executions; non-trivial = streams that made the broker close the attacker connection (the rest were served as valid traffic)")
 		c.Rep.Assumption("default schedule (one connection acts at a time); concurrency of handlers is covered by C32/C33")
